@@ -217,6 +217,8 @@ def match_finding(stage, job):
             return "C10-instance-of-member-error-directive"
         if re.search(r"\b[\w-]+\.h: No such file", blog) and valueset_used_as_type(text):
             return "C10-valueset-type-as-member"
+        if re.search(r"unknown type name .asn_(Native)?REAL_specifics_t|.asn_(Native)?REAL_specifics_t. does not name a type", blog) and "-fwide-types" in opts and REAL_REF_NARROWED.search(strip_comments(text)):
+            return "C10-real-reference-narrowed-to-float"
     if stage == "files-model":
         # model and C disagree on the per-type file names ONLY at parameterized types defined in two modules
         # (the templates are not run through asn1f_check_duplicate: no module prefix, both saved to one file)
@@ -241,13 +243,21 @@ def match_finding(stage, job):
             return "C10-constant-exceeds-c-type"
         # the Coq checker re-decides what the alias oracle decided on the same dump: clauses 9 / 12 are the tagged-ANY
         # finding exactly when every problem the oracle saw is that symptom
-        if set(job["failing_clauses"]) <= {9, 12} and match_finding("alias", job) == "C10-tagged-any-loses-tag":
-            return "C10-tagged-any-loses-tag"
-    if stage == "alias":
-        probs = job.get("alias_probs", [])
-        if probs and all(len(p_) > 2 and p_[2] for p_ in probs) and re.search(r"\bANY\b", strip_comments(text)):
-            return "C10-tagged-any-loses-tag"
+        # and 8 (representation) the narrowed-REAL finding
+        if set(job["failing_clauses"]) <= {8, 9, 12} and job.get("alias_probs") and not alias_unexplained(job):
+            return sorted({p_[2] for p_ in job["alias_probs"]})[0]
     return None
+
+
+REAL_REF_NARROWED = re.compile(r"::=\s*(?:\[[^\]]*\]\s*(?:IMPLICIT\s+|EXPLICIT\s+)?)?[A-Z][\w.-]*\s*\(\s*WITH\s+COMPONENTS\s*\{[^}]*\bmantissa\b")
+
+
+def alias_unexplained(job):
+    """the problems of the alias / member-tag oracle that no known finding explains (symptom flag of the oracle AND a
+    predicate on the module text)"""
+    text = strip_comments(job["mod"]["text"])
+    ok = {"C10-tagged-any-loses-tag": bool(re.search(r"\bANY\b", text)), "C10-real-reference-narrowed-to-float": bool(REAL_REF_NARROWED.search(text))}
+    return [p_ for p_ in job.get("alias_probs", []) if not (len(p_) > 2 and p_[2] and ok.get(p_[2]))]
 
 
 # ---------------------------------------------------------------- round 2: file set and specialization ties
@@ -476,15 +486,15 @@ def main(tier):
         if probs:
             j["alias_probs"] = probs
             run.count("oracle:alias-invariant-broken")
-            fid = match_finding("alias", j)
-            if fid and fid in known_ids:
+            bad = [p_ for p_ in alias_unexplained(j)] + [p_ for p_ in probs if len(p_) > 2 and p_[2] and p_[2] not in known_ids]
+            for fid in sorted({p_[2] for p_ in probs if len(p_) > 2 and p_[2] and p_[2] in known_ids and p_ not in bad}):
                 run.known_finding(fid, case)
                 run.count("known:" + fid)
-            else:
-                run.violation("alias:" + ",".join(sorted({p_[0] for p_ in probs})),
+            if bad:
+                run.violation("alias:" + ",".join(sorted({p_[0] for p_ in bad})),
                               dict(replay, what="asn1c exited 0 and the code builds, but the descriptor of a type reference is not its target's "
-                                                "(op / members / specifics / X.680 tags / codec records), or a member does not carry the tag of its type",
-                                   problems=[p_[1] for p_ in probs[:10]], hops=[h_ for h_ in (hops or [])][:40]))
+                                                "(op / members / representation / specifics / X.680 tags / codec records), or a member does not carry the tag of its type",
+                                   problems=[p_[1] for p_ in bad[:10]], hops=[h_ for h_ in (hops or [])][:40]))
         if tier == "quick" and m["origin"] in ("param", "multi", "grammar", "grammar-refused") and m["name"] in tabled:
             run.count("descriptor-tables-not-rechecked(round-2 module, second option set)")
             continue            # quick: the descriptor obligation of a round-2 module is generated for its first option set only
